@@ -34,7 +34,7 @@ ASSUMPTIONS = [
     "sequential specification of each edit (mirror) written from the docstrings: duplicates / 'time' / unknown names are rejected, everything else accepted",
     "observables compared: ids, name lists per kind (ordered), parameter values, initial conditions, derived classification, argument table incl. readouts, fluxes, right-hand side, positional call, stoichiometries; exceptions by type",
 ]
-N = {"quick": 1500, "thorough": 20000}
+N = {"quick": 1500, "thorough": 100000}
 MIN_NONTRIVIAL = {"quick": 100, "thorough": 2000}
 KINDS = ("parameter", "variable", "derived", "reaction", "readout", "surrogate", "data")
 
